@@ -5,6 +5,7 @@ import (
 	"go/ast"
 	"go/token"
 	"go/types"
+	"reflect"
 	"strings"
 
 	"verif/checker/internal/core"
@@ -1108,5 +1109,113 @@ func ruleBinaryOperatorTokens(c *core.Ctx) {
 		}
 		c.Check(handled[info.Uses[id]], rule, "operatorInfo/"+id.Name, kv.Pos(), "has a case in combineOperands",
 			fmt.Sprintf("%s is a binary operator of the grammar but combineOperands has no case for it: an expression using it makes yardl panic (unexpected token type)", id.Name))
+	}
+}
+
+// P9: reflective struct walks terminate. koanf's structs.Provider (fatih/structs) recurses
+// through every exported field that is not tagged `<tag>:"-"`, following pointers, with no
+// visited set: a value cycle through walked fields overflows the stack. Every field that
+// closes a cycle in the *type* graph of the walked root must therefore be excluded by the
+// tag, or be listed with the reason why the values can never be cyclic.
+var acyclicByConstruction = map[string]string{
+	"Import.Package": "import graphs are acyclic: collectPackages rejects a package that is already on the import chain (rule I1)",
+}
+
+func ruleReflectiveWalkTerminates(c *core.Ctx) {
+	const rule = "P9"
+	c.Rule(rule, "every struct handed to koanf's reflective structs.Provider has no pointer cycle through the fields the walk follows: each field closing a type cycle carries the `-` tag of the walk or is acyclic by construction (table)", 2)
+	n := 0
+	for _, d := range c.AllDecls() {
+		p := c.DeclPkg(d)
+		if !frontScope(p.PkgPath) {
+			continue
+		}
+		for _, cs := range c.Calls(d) {
+			if cs.Callee == nil || core.FullName(cs.Callee) != "github.com/knadh/koanf/providers/structs.Provider" || len(cs.Call.Args) != 2 {
+				continue
+			}
+			n++
+			tag := "yaml"
+			if tv, ok := p.TypesInfo.Types[cs.Call.Args[1]]; ok && tv.Value != nil {
+				tag = strings.Trim(tv.Value.ExactString(), "\"")
+			}
+			root := core.NamedOf(p.TypesInfo.TypeOf(cs.Call.Args[0]))
+			if root == nil {
+				c.Undecided(rule, c.FuncName(d)+"/structs.Provider", cs.Call.Pos(), "argument is not a named struct")
+				continue
+			}
+			onPath := map[*types.Named]bool{}
+			done := map[*types.Named]bool{}
+			reported := map[string]bool{}
+			var walk func(t *types.Named)
+			var follow func(owner *types.Named, field *types.Var, ftag string, t types.Type, depth int)
+			follow = func(owner *types.Named, field *types.Var, ftag string, t types.Type, depth int) {
+				if depth > 6 {
+					return
+				}
+				switch x := t.(type) {
+				case *types.Pointer:
+					follow(owner, field, ftag, x.Elem(), depth+1)
+				case *types.Slice:
+					follow(owner, field, ftag, x.Elem(), depth+1)
+				case *types.Array:
+					follow(owner, field, ftag, x.Elem(), depth+1)
+				case *types.Map:
+					follow(owner, field, ftag, x.Elem(), depth+1)
+				case *types.Alias:
+					follow(owner, field, ftag, types.Unalias(x), depth+1)
+				case *types.Named:
+					if _, isStruct := x.Underlying().(*types.Struct); isStruct {
+						if onPath[x] {
+							key := owner.Obj().Name() + "." + field.Name()
+							if reported[key] {
+								return
+							}
+							reported[key] = true
+							if r, ok := acyclicByConstruction[key]; ok {
+								c.OK(rule, key, field.Pos(), "closes a type cycle back to "+x.Obj().Name()+" but values are acyclic: "+r)
+							} else {
+								c.Bad(rule, key, field.Pos(), fmt.Sprintf("field %s closes a cycle back to %s in the struct graph that structs.Provider(%s, %q) walks and is not tagged `%s:\"-\"`: a value that points back (e.g. a version labelling the package itself, `versions: {cur: .}`) makes the walk recurse until the stack overflows", key, x.Obj().Name(), root.Obj().Name(), tag, tag))
+							}
+							return
+						}
+						walk(x)
+					} else {
+						follow(owner, field, ftag, x.Underlying(), depth+1)
+					}
+				}
+			}
+			walk = func(t *types.Named) {
+				if done[t] {
+					return
+				}
+				onPath[t] = true
+				st := t.Underlying().(*types.Struct)
+				for i := 0; i < st.NumFields(); i++ {
+					f := st.Field(i)
+					if !f.Exported() {
+						continue
+					}
+					ftag := reflect.StructTag(st.Tag(i)).Get(tag)
+					if ftag == "-" {
+						key := t.Obj().Name() + "." + f.Name()
+						if nt := core.NamedOf(f.Type()); nt != nil && !reported[key] {
+							if _, isStruct := nt.Underlying().(*types.Struct); isStruct && onPath[nt] {
+								reported[key] = true
+								c.OK(rule, key, f.Pos(), "back-pointer excluded from the walk by its `-` tag")
+							}
+						}
+						continue
+					}
+					follow(t, f, ftag, f.Type(), 0)
+				}
+				onPath[t] = false
+				done[t] = true
+			}
+			walk(root)
+		}
+	}
+	if n == 0 {
+		c.Undecided(rule, "anchor/structs.Provider", 0, "no call of koanf structs.Provider found")
 	}
 }
